@@ -413,11 +413,10 @@ Example ex_cert : path_cert ex_graph 0 (Some ([0; 1; 2; 3]%nat, [0; 0; 0]%nat, 3
 Proof. repeat split; reflexivity. Qed.
 
 (* ---- from_mdp: "accepts a deterministic MDP however its single-outcome distributions are
-   represented".  Full statement: forall d, from_mdp_read d = Some (dist_outcome d).
-   The model of today's code refutes it for the single-entry DictDistribution. ---- *)
-Theorem from_mdp_repr_partial d :
-  (forall x, d <> DDict x) -> from_mdp_read d = Some (dist_outcome d).
-Proof. destruct d; intros H; try reflexivity. exfalso. eapply H; eauto. Qed.
+   represented" ---- *)
+Theorem from_mdp_repr d : from_mdp_read d = Some (dist_outcome d).
+Proof. destruct d; reflexivity. Qed.
 
-Theorem from_mdp_repr_refuted : exists d, from_mdp_read d <> Some (dist_outcome d).
+(* historical (code before /repo 9090d34 read support[0]): that read failed on the dict keys view *)
+Lemma from_mdp_index0_refuted_historical : exists d, from_mdp_read_index0 d <> Some (dist_outcome d).
 Proof. exists (DDict 0). discriminate. Qed.
